@@ -54,6 +54,11 @@ NOTES = [
     "translate table), not 'removed' as one docstring says",
     "re.search, str() of a non-string operand and the captured output of an execution are parameters of the model "
     "(abstract functions in the theorems, concrete values supplied by the harness per case)",
+    "WHICH text an operand of an output assertion stands for is outside the Lean model (the `.output` primitive): the "
+    "translator accepts self.get_output as that primitive only after a behavioural probe on a fixed history with nested "
+    "CommandBlocks, and the history streams (every execution result and the Sandbox as operand after sequences of "
+    "call / evaluate / run / lookups / failing calls / clear_output / open and closed blocks) supply the model and the "
+    "oracle with the text that very execution wrote as known to the generator, never read back from pedal",
     "assert_is_instance treats int and float as interchangeable (explicit in the code): the spec relation follows it",
     "assert_type / assert_not_type (pedal type system) are not modelled in Lean: sampled against an oracle only (a table "
     "of value/type-expression pairs incl. nested generics and both spellings, plus the student's own classes given as "
@@ -314,7 +319,7 @@ def gen_history_random(rng, tier):
     """longer histories over the whole step vocabulary (nested blocks, evaluate, run of instructor code, the student
     program again, output without a final newline, a call that prints and then fails, a call of a missing function,
     variable lookups), several probes each: any operand, any output assertion, exact or not, raw or proxied text"""
-    n, per = (260, 8) if tier == "quick" else (5000, 12)
+    n, per = (500, 8) if tier == "quick" else (5000, 12)
     for _ in range(n):
         steps = random_steps(rng, rng.randrange(2, 8))
         probes = hist_probes(steps)
@@ -385,7 +390,7 @@ def gen_value_history(rng, tier, P):
                 if not unary:
                     d["r"] = _v(r)
                 yield {"a": name, "wrap": wrap, "desc": d, "vhist": steps}
-    n = 900 if tier == "quick" else 12000
+    n = 1600 if tier == "quick" else 12000
     names = ac.ORDER + ac.MEMBER + ac.IDENT + ac.LENGTH + ac.EQUAL + ac.REGEX + ac.UNARY
     for _ in range(n):
         name = rng.choice(names)
@@ -528,6 +533,8 @@ def from_description(d):
     if d.get("after_clear_sandbox") and not _in_clear_stream[0]:
         from pedal.sandbox.commands import clear_sandbox
         ag.end_history()
+        ac.renew()
+        ac.call("say", HA)
         clear_sandbox()
         ac.run()
     if "history" in d and "on" in d:
@@ -621,11 +628,11 @@ def run_unit(case, P):
     """real unit_test(): (returned, success_count, total_count, left operands as seen by the case assertions).
     unit_test is called the way instructors call it (default assert function); `partial` switches partial credit on,
     which must not change the verdict or the counts."""
-    sb = ac.get_sandbox()
     if case.get("pre"):
         ag.run_history(case["pre"])
     else:
         ag.end_history()
+    sb = ac.get_sandbox()            # after the history: it may have started on a fresh sandbox
     sb.data["TABLE"] = {j: P.raw[s] for j, s, _ in case["rows"] if s is not None}
     ac.clear_report()
     seen = []
@@ -972,6 +979,11 @@ def correspond(rng, tier, driver):
                 "tolerance, strings differing by case/punctuation/whitespace/line order, lists, tuples, sets, dicts, nested, "
                 "builtin classes and class tuples, plain objects, three kinds of error operand) x raw/proxy wrapping (real "
                 "SandboxResult proxies of the very same objects) x both orders; output assertions over executions that print; "
+                "HISTORIES: every well-formed sequence of <= 3 (thorough 4) steps over open / close / clear_output / two calls "
+                "printing different lines / a silent call / a failing call, and random longer ones over call, evaluate, "
+                "run, lookups, calls that print and fail, output without final newline, nested blocks - every execution "
+                "result and the Sandbox as operand of every output assertion, operands of every other family made "
+                "before / between / after other executions, unit_test after a history, operands made after clear_sandbox; "
                 "real = bool(assertion) and membership in report.feedback, model = Pedal.Assertions.outcome on the generated "
                 "CondExpr; plus CPython's ==,<,in,len,bool,isinstance,hash and pedal's equality_test vs the model relations; "
                 "plus unit_test tables; non-trivial = the assertion is silent (the relation holds) or equality_test is True"
@@ -1061,7 +1073,9 @@ def correspond(rng, tier, driver):
 def search(rng, tier, broken, corr):
     P = pool()
     info = {"rule": "real assertion outcome vs the plain Python relation on the raw operands (unevaluable or error operand "
-                    "=> must fail; relation holds => must be silent), for every correspondence case, the unit_test tables "
+                    "=> must fail; relation holds => must be silent; for an operand made in a history the text it stands "
+                    "for is the text its own execution wrote, for the Sandbox everything since the last clear_output - both "
+                    "computed from the steps), for every correspondence case, the unit_test tables "
                     "(success iff all cases pass, true pass count) and a table of assert_type / assert_not_type cases",
             "evaluations": 0, "distinct_nontrivial": 0, "samples": []}
     best = {}
@@ -1186,11 +1200,13 @@ def search(rng, tier, broken, corr):
 
 def clear_sandbox_stream():
     """clear_sandbox(); run(); then assertions on operands made afterwards (value and output assertions, with and
-    without earlier executions / an open block).  Must run LAST: every proxy made before it is dangling afterwards.
+    without earlier executions / an open block).  Runs on a sandbox of its own (ac.renew() before and after): proxies
+    made from a sandbox before it was cleared refer to executions it has forgotten.
     -> [(description, real, want)]"""
-    global _pool
     from pedal.sandbox.commands import clear_sandbox
     rows = []
+    ag.end_history()
+    ac.renew()
     _in_clear_stream[0] = True
     values = [("assert_equal", 1, 1), ("assert_equal", 1, 2), ("assert_true", 1, None), ("assert_true", 0, None),
               ("assert_in", "a", "abc"), ("assert_less", 2, 1), ("assert_is_none", None, None),
@@ -1217,10 +1233,7 @@ def clear_sandbox_stream():
     finally:
         _in_clear_stream[0] = False
         ag.end_history()
-        _pool = None                    # its proxies refer to executions the sandbox has forgotten
-        _exec_cache.clear()
-        _text_proxy.clear()
-        _hist_text_proxy.clear()
+        ac.renew()
     return rows
 
 
@@ -1279,10 +1292,10 @@ def replay(payload):
         return 2
     if "unit_test_rows" in rp:
         ac.setup()
-        sb = ac.get_sandbox()
         rows = rp["unit_test_rows"]
         if rp.get("pre"):
             ag.run_history(rp["pre"])
+        sb = ac.get_sandbox()
         sb.data["TABLE"] = {j: ac.build(s) for j, s, _ in rows if s is not None}
         extra = {"partial_credit": True} if rp.get("partial_credit") else {}
         ok = ac.unit_test("table", *[([j], ac.build(e)) for j, _, e in rows], **extra)
